@@ -786,23 +786,43 @@ class Node:
         if new_parent._tree is not self._tree:
             raise NotImplementedError("Can only move nodes inside same tree")
 
-        self._parent._children.remove(self)  # type: ignore
-        if not self._parent._children:  # store None instead of `[]`
-            self._parent._children = None
-        self._parent = new_parent
-
         if before is True:
             before = 0  # prepend
         elif before is False:
             before = None  # append (note: `False` is an `int` as well)
 
+        # Validate all arguments before the node is detached, so a refused
+        # call leaves the tree unchanged
+        if new_parent is self or new_parent.is_descendant_of(self):
+            raise ValueError(f"Cannot move {self} below itself")
+
+        # The future siblings (`self` may already be a child of `new_parent`)
+        target_siblings = [n for n in new_parent.children if n is not self]
+        if isinstance(before, Node):
+            if before is self or before._parent is not new_parent:
+                raise ValueError(
+                    f"`before=node` ({before._parent}) "
+                    f"must be a child of target node ({new_parent})"
+                )
+        elif not target_siblings:
+            assert before in (None, True, False, 0), before
+
+        if new_parent is not self._parent:
+            for n in target_siblings:
+                if n._data_id == self._data_id:
+                    raise UniqueConstraintError("Node.data already exists in parent")
+
+        # `list.remove()` checks for equality ('=='), not identity
+        self._parent._children.pop(self._index_in_parent())  # type: ignore
+        if not self._parent._children:  # store None instead of `[]`
+            self._parent._children = None
+        self._parent = new_parent
+
         target_siblings = new_parent._children
         if target_siblings is None:
-            assert before in (None, True, False, 0), before
             new_parent._children = [self]  # type: ignore
         elif isinstance(before, Node):
-            assert before._parent is new_parent, before
-            idx = target_siblings.index(before)  # raise ValueError if not found
+            idx = before._index_in_parent()
             target_siblings.insert(idx, self)
         elif isinstance(before, int):
             target_siblings.insert(before, self)
